@@ -433,7 +433,7 @@ func numfStream(r *Run) {
 		}
 	}
 	// other Go representations of the divisor / operand (D14), zero of every kind
-	for _, x := range []*V{VInt(0, 7), VFlt(1, 7.5), VInt(0, -7), VStr("7")} {
+	for _, x := range []*V{VInt(0, 7), VFlt(1, 7.5), VInt(0, -7), VStr("7"), VInt(5, 7), VInt(9, 7), VInt(6, 7), VFlt(0, 7.5), VStr("7.5")} {
 		for k := 0; k < 10; k++ {
 			for _, n := range []int64{0, 1, 2, 3} {
 				emit(x, numStep{"divided_by", VInt(k, n)})
